@@ -188,6 +188,7 @@ def run(chk: Check, ctx: Any) -> None:
         "every other prefix line is a comment; (R4) the raw ops handed to the fallback come from a deepcopy taken before any pass ran. "
         "Exactness of the fallback text is C07. Implicit exceptions are covered only as far as the handler catches Exception."
     )
+    chk.rule("C06-R7", "round trip, every stage interpreted: convert() returns text and source map for every program of the skeleton families; fallback text carries the marker and compiles back to the input op for op")
     chk.rule("C06-R1", "raise-set of the try body of convert() is a subset of what its fallback handler catches; AssertionError is caught")
     chk.rule("C06-R3", "the fallback prefix starts with a line that parse_exps_meta_attributes reads as is-ssb-script = true/1; all further lines are // comments; "
                        "the whole prefix (marker included) is passed to SsbScriptSsbDecompiler.convert(prefix=...) and counted into its line number")
@@ -339,3 +340,6 @@ def run(chk: Check, ctx: Any) -> None:
     infos_ok = ctor is not None and norm(ctor.args[0]) == "self._routine_infos" and len(ctor.args) >= 3 and "named_coroutines" in norm(ctor.args[2])
     chk.decide("C06-R4", "fallback:same-routine-tables", infos_ok, conv, "the fallback decompiler is not given the routine infos / coroutine names of the input",
                "same routine infos and coroutine names")
+    from .roundtrip import summarise as _rt
+    _rt(chk, ctx, "C06-R7", "C06", getattr(ctx, "tier", "quick") == "thorough")
+
